@@ -1,64 +1,11 @@
 ---------------------------- MODULE SnpValidator ----------------------------
 (***************************************************************************)
-(* C09: one SNP validator function (the closure returned by                *)
-(* verify.SNPFamilyValidateFunc) invoked by several callers at once.       *)
-(* Each call captures its attestation's measurement and then compares it   *)
-(* with the endorsement.  The closure has one observable scheduling point  *)
-(* (the verifhook gate right after the capture), so a call is two atomic   *)
-(* segments: Capture(p) and Finish(p).  Design "percall" keeps the         *)
-(* captured measurement in per-call state; "shared" (the pinned tree       *)
-(* before the repair) keeps it in the options value shared by all calls.   *)
-(* Validators for several firmware families may be built from one options  *)
-(* value (Fams).  The endorsement object exists under the "gce" family     *)
-(* only, so a call through another family's validator finds nothing to     *)
-(* download.  A validator keeps its family to itself; "famshared"          *)
-(* (negative control) keeps it in the options value, where the validator   *)
-(* built last decides for all of them.                                     *)
+(* C09: the validator model is in SnpValidatorCore.tla (so that the proof  *)
+(* system can read it: SnpValidatorProof.tla proves C09_Isolated for any   *)
+(* number of calls); this module adds what TLC needs to hand the explored  *)
+(* schedules to the harness.                                               *)
 (***************************************************************************)
-EXTENDS Integers, Sequences, FiniteSets, TLC, Json
-
-CONSTANTS N, Design, Fams   \* number of concurrent calls; "percall" | "shared" | "famshared"; families
-
-VARIABLES att, pc, local, shared, res, sched, vfam, optfam
-vars == <<att, pc, local, shared, res, sched, vfam, optfam>>
-
-Procs == 1 .. N
-Atts == {"endorsed", "unendorsed"}
-Alone(a) == IF a = "endorsed" THEN "accept" ELSE "reject"
-\* the isolated result of a call with attestation a through the validator of family f
-AloneVia(a, f) == IF f = "gce" THEN Alone(a) ELSE "reject"
-
-Init ==
-  /\ att \in [Procs -> Atts]
-  /\ pc = [p \in Procs |-> "start"]
-  /\ local = [p \in Procs |-> "none"]
-  /\ shared = "none"
-  /\ res = [p \in Procs |-> "none"]
-  /\ sched = <<>>
-  /\ vfam \in [Procs -> Fams]          \* the validator each call goes through
-  /\ optfam \in Fams                   \* the family of the validator that was built last
-
-Capture(p) ==
-  /\ pc[p] = "start"
-  /\ IF Design = "shared" THEN shared' = att[p] /\ UNCHANGED local
-     ELSE local' = [local EXCEPT ![p] = att[p]] /\ UNCHANGED shared
-  /\ pc' = [pc EXCEPT ![p] = "captured"]
-  /\ sched' = Append(sched, [seg |-> "A", p |-> p])
-  /\ UNCHANGED <<att, res, vfam, optfam>>
-
-Finish(p) ==
-  /\ pc[p] = "captured"
-  /\ LET m == IF Design = "shared" THEN shared ELSE local[p]
-           f == IF Design = "famshared" THEN optfam ELSE vfam[p] IN
-       res' = [res EXCEPT ![p] = AloneVia(m, f)]
-  /\ pc' = [pc EXCEPT ![p] = "done"]
-  /\ sched' = Append(sched, [seg |-> "B", p |-> p])
-  /\ UNCHANGED <<att, local, shared, vfam, optfam>>
-
-Next == \E p \in Procs : Capture(p) \/ Finish(p)
-Spec == Init /\ [][Next]_vars
-
-C09_Isolated == \A p \in Procs : pc[p] = "done" => res[p] = AloneVia(att[p], vfam[p])
+EXTENDS SnpValidatorCore, TLC, Json
 
 AllDone == \A p \in Procs : pc[p] = "done"
 Emit == AllDone => PrintT(<<"VCASE", ToJson([att |-> att, sched |-> sched, vfam |-> vfam, optfam |-> optfam])>>)
